@@ -38,7 +38,7 @@ def streams(ctx):
                  classify=lambda op, r: op.split()[1])
     # structured / random x
     ops2 = []
-    fast = [n for n in ALL if n not in SLOW and n != "cache"]
+    fast = ["lmo_parallel", "dr64", "dr128raw", "gourdon64", "gourdon128raw", "pi"]
     n_mid = 60 if ctx.quick else 1500
     for x in gen.structured_x(rng, 3 * 10 ** 4, 5 * 10 ** 7, n_mid):
         ops2.append("algall %d %d %s" % (x, rng.choice((1, 3, 16)), " ".join(n for n in ALL if n != "cache")))
@@ -55,6 +55,8 @@ def streams(ctx):
         dis = []
         for i, (o, a, b) in enumerate(zip(ops, impl, model)):
             va, vb = a.split(), b.split()
+            if a in ("HANG", "CRASH", "SKIPPED"):
+                continue
             if "?" in vb:
                 ok = len(set(va)) == 1 and va[0].lstrip("-").isdigit()
                 exp = "all equal"
